@@ -14,7 +14,7 @@ static const char *kOpNames[] = {"global",        "legalize",      "detailed",
                                  "set_weights",   "badcall",       "copy",
                                  "check",         "set_orient"};
 static const char *kCbNames[] = {"throw_rt", "throw_ba", "throw_int", "poke",
-                                 "badcall",  "resize",   "nest"};
+                                 "badcall",  "resize",   "nest",      "badparams"};
 static const char *kVmNames[] = {"fresh",  "copy",    "twice", "after_other",
                                  "nested", "freerun", "pinned"};
 
